@@ -221,6 +221,15 @@ def build_harness(release=False, timeout=2400):
         return os.path.join(target, "release" if release else "debug", "specs-harness")
 
 
+def unlimit_stack():
+    """the extracted model recurses on lists (histories with 10^5 handles): no stack limit"""
+    import resource
+    try:
+        resource.setrlimit(resource.RLIMIT_STACK, (resource.RLIM_INFINITY, resource.RLIM_INFINITY))
+    except (ValueError, OSError):
+        pass
+
+
 # ---------------------------------------------------------------- setup
 
 def setup():
